@@ -33,12 +33,12 @@ def call_getter(fg, g):
     return fg.get_full_distances()
 
 
-def events_for(nb, no, nt, cart, order, b_alg="", o_alg=""):
+def events_for(nb, no, nt, cart, order, b_alg="", o_alg="", b_name=None, o_name=None):
     from molgri.space.fullgrid import FullGrid
     evs = []
     try:
         with quiet():
-            fg = FullGrid(b_grid_name=f"{b_alg}{nb}", o_grid_name=f"{o_alg}{no}", t_grid_name=RADII[nt],
+            fg = FullGrid(b_grid_name=b_name or f"{b_alg}{nb}", o_grid_name=o_name or f"{o_alg}{no}", t_grid_name=RADII[nt],
                           position_grid_cartesian=cart)
         err = None
     except Exception as ex:
@@ -79,6 +79,23 @@ def run(ctx: Ctx):
                 recs.append(dict(cfg=dict(nB=nb, nO=no, nT=nt, cartesian=cart), algs=[b_alg, o_alg],
                                  events=events_for(nb, no, nt, cart, order, b_alg, o_alg)))
             ctx.count(2, nontrivial_key=(b_alg, nb, no, nt, cart))
+    # named algorithms at sizes beyond the box, created one after the other IN THIS PROCESS in a seeded order and in the reverse
+    # order: a valid specification stays valid whatever grids were built before it (polytope grids of different subdivision
+    # depth, the full-division grids fulldiv_8 / fulldiv_40 before and after deeper cube4D grids, the zero grids)
+    named = [("cube4D_12", 12, "ico_7", 7, 2), ("fulldiv_8", 8, "cube3D_8", 8, 2), ("fulldiv_40", 40, "4", 4, 1), ("fulldiv_8", 8, "6", 6, 1),
+             ("cube4D_3", 3, "ico_13", 13, 1), ("randomQ_9", 9, "randomS_6", 6, 2), ("zero", 1, "ico_5", 5, 1), ("cube4D_9", 9, "zero", 1, 2),
+             ("cube4D_41", 41, "cube3D_9", 9, 1), ("fulldiv_8", 8, "ico_12", 12, 1)]
+    if thorough:
+        named += [("fulldiv_272", 272, "1", 1, 1), ("fulldiv_40", 40, "cube3D_27", 27, 1), ("cube4D_16", 16, "ico_43", 43, 2), ("fulldiv_8", 8, "randomS_5", 5, 3)]
+    shuffled = list(named)
+    rng.shuffle(shuffled)
+    for pass_no, seq in enumerate((shuffled, list(reversed(shuffled)))):
+        for (bn, nb, on, no, nt) in seq:
+            cart = bool(no >= 5 and (pass_no + nb) % 2)
+            order = rng.sample(GETTERS, 5) + [rng.choice(GETTERS)]
+            recs.append(dict(cfg=dict(nB=nb, nO=no, nT=nt, cartesian=cart), algs=[bn, on], named=True,
+                             events=events_for(nb, no, nt, cart, order, b_name=bn, o_name=on)))
+            ctx.count(1, nontrivial_key=(bn, on, nt, cart, pass_no))
     for i, r in enumerate(recs):
         r["tid"] = i
     rejects = ctx.validate("GridOutcome_Trace", "GridOutcome_Trace.cfg", recs, name="outcomes")
@@ -86,8 +103,8 @@ def run(ctx: Ctx):
         r = recs[tid]
         c = r["cfg"]
         ev = r["events"][k - 1]
-        key = (f"FullGrid(b='{r['algs'][0]}{c['nB']}', o='{r['algs'][1]}{c['nO']}', t='{RADII[c['nT']]}', cartesian={c['cartesian']})"
-               f".{ev['g']} -> {clause}")
+        bname, oname = (r["algs"][0], r["algs"][1]) if r.get("named") else (f"{r['algs'][0]}{c['nB']}", f"{r['algs'][1]}{c['nO']}")
+        key = f"FullGrid(b='{bname}', o='{oname}', t='{RADII[c['nT']]}', cartesian={c['cartesian']}).{ev['g']} -> {clause}"
         ctx.violation(key, dict(record=r, clause=clause, event=k))
     ctx.cov["exhaustive"] = True
     ctx.sample(recs[0])
